@@ -51,11 +51,11 @@ def table(dav):
         checks.append(dav(pid, TEXT.get(pid, TEXT["C01"]),
                           "TLA+ model checking (TLC) + trace validation of recorded executions against the spec"))
     checks.append(other("C04", "crash", "fault_enumeration",
-        "Every mutating file-system event of create/replace/no-op/delete/property-set on tree-git, bare-git and vdir stores (with varying prior contents, both metadata back ends) is a crash point: the store directory as it is just before the event, plus torn variants of the file being written, is re-opened by the real code and read completely; TLC judges each image against CrashTrace.tla (old-or-new, opens, no reference to a missing object, acknowledged writes durable). The write protocols themselves are model checked exhaustively in StoreProto.tla, and the recorded gate sequences are validated against it.",
+        "Every mutating file-system event of create/replace/no-op/delete/property-set on tree-git, bare-git and vdir stores (with varying prior contents, both metadata back ends) is a crash point: the store directory as it is just before the event, plus torn variants of the file being written, is re-opened by the real code and read completely (store API operations, the same operations arriving as HTTP requests, and operations preceded by earlier requests of the same process); TLC judges each image against CrashTrace.tla (old-or-new, opens, no reference to a missing object, acknowledged writes durable). The write protocols themselves are model checked exhaustively in StoreProto.tla, and the recorded gate sequences are validated against it.",
         "TLA+ model checking of the write protocol (StoreProto) + exhaustive crash-point enumeration on the real code judged by a TLA+ trace spec",
         "File-system operations persist in program order (no fsync reordering); torn writes sampled empty/half; audit-hook events are the crash points (kills between two Python-level events inside one C call are not distinguished); git CLI fsck as auditor; harness/compat.py."))
     checks.append(other("C05", "race", "model_checking",
-        "TLC explores all interleavings of two writers in the implementation-shaped model StoreProto.tla (one action per file-system step) against the linearizability property Lin.tla; the real tree-git and bare-git stores are then run under systematically enumerated interleavings of their file-system steps (audit-hook scheduler: every preemption point, thorough: two preemptions; shared store object and separate store objects) and every execution is judged by TLC against Lin.tla. Races that the unchanged code has are listed in known_findings.json by store kind, operation kinds, clause and window.",
+        "TLC explores all interleavings of two writers in the implementation-shaped model StoreProto.tla (one action per file-system step) against the linearizability property Lin.tla; the real tree-git and bare-git stores are then run under systematically enumerated interleavings of their file-system steps (audit-hook scheduler: every preemption point, thorough: two preemptions; shared store object, separate store objects, and a store object opened while the other writer is in its critical section; a sample also as real HTTP requests to an aiohttp server) and every execution - with a follow-up operation, the served views and the etag each put answered with - is judged by TLC against Lin.tla; histories without overlap issued in turn through two long-lived store objects are judged sequentially (SeqVerdict). Races that the unchanged code has are listed in known_findings.json by store kind, operation kinds, clause and window.",
         "TLA+ model checking (TLC) of the write protocol + deterministic schedule enumeration on the real code judged by a TLA+ linearizability spec",
         "Preemption only at file-system events (audit hook); pure-Python sections between two events are not scheduled; exceptions raised under ref-lock contention count as a locked refusal if they had no effect; harness/compat.py."))
     checks.append(other("C10", "index", "model_checking",
